@@ -11,6 +11,30 @@ TRACKED = "_list_of_constraints_sent_to_solver"
 SOLVER_CONS = "_list_of_solver_constraints"
 
 
+def resolve_names(repo):
+    """The tracked-list attribute is the one Wrapper.assign_dual_values zips with the recovered multipliers; the cvxpy list of solver
+    constraints is the one handed to cp.Problem(constraints=...).  Resolved from the source so that a rename is followed."""
+    global TRACKED, SOLVER_CONS
+    base = common.wrapper_base(repo)
+    fn = base.methods.get("assign_dual_values")
+    if fn is not None:
+        for c in ast.walk(fn):
+            if isinstance(c, ast.Call) and call_name(c) == "zip" and c.args:
+                d = dotted(c.args[0])
+                if d and d.startswith("self."):
+                    TRACKED = d.split(".", 1)[1]
+    for be in common.backends(repo):
+        gp = be.methods.get("generate_problem")
+        if gp is None:
+            continue
+        for c in ast.walk(gp):
+            if isinstance(c, ast.Call) and call_name(c) == "Problem":
+                a = get_arg(c, 1, "constraints")
+                d = dotted(a) if a is not None else None
+                if d and d.startswith("self."):
+                    SOLVER_CONS = d.split(".", 1)[1]
+
+
 def _be(repo, which):
     for b in common.backends(repo):
         if which in b.name.lower():
@@ -23,6 +47,7 @@ def _be(repo, which):
 # ---------------------------------------------------------------------------------------------------
 def r_track(ctx):
     repo = ctx.repo
+    resolve_names(repo)
     base = common.wrapper_base(repo)
     for be in common.backends(repo):
         for meth in ("send_constraint_to_solver", "send_lmi_constraint_to_solver"):
@@ -152,6 +177,7 @@ def _loop_trip(loop, ev):
 
 def r_slots(ctx):
     repo = ctx.repo
+    resolve_names(repo)
     be = _be(repo, "cvxpy")
     ev = _ShapeEval({})
     where_be = be.module.rel
@@ -367,6 +393,7 @@ def constraint_senses(repo):
 
 def r_sense(ctx):
     repo = ctx.repo
+    resolve_names(repo)
     senses, a = constraint_senses(repo)
     init = repo.method("Constraint", "__init__")
     ok = senses == {"equality", "inequality"}
@@ -771,6 +798,16 @@ def r_rowidx(ctx):
                 bad.append(src(n)[:50])
         ctx.ob("R-ROWIDX", "MosekWrapper.send_constraint_to_solver::row addressed", not bad,
                "coefficients and bounds address the new row" if not bad else "calls address another row: %s" % bad, loc(fn, fn))
+    # row indices handed to the task are not squeezed through a narrow integer type
+    for f2 in mb.methods.values():
+        for c in ast.walk(f2):
+            if isinstance(c, ast.Call) and call_name(c) == "putaijlist" and c.args:
+                narrow = [k for n in ast.walk(c.args[0]) if isinstance(n, ast.Call) for k in n.keywords
+                          if k.arg == "dtype" and (dotted(k.value) or "").split(".")[-1] in ("int8", "uint8", "int16", "uint16")]
+                ctx.ob("R-ROWIDX", "MosekWrapper.%s::putaijlist row indices" % f2.name, not narrow,
+                       "row indices keep the width of the task's constraint count" if not narrow else
+                       "the row-index array is built as `%s`: with numpy >= 2 adding the row number to an %s array raises OverflowError (or wraps) as soon as "
+                       "the task has more rows than that type holds (128 rows for int8)" % (src(c.args[0]), (dotted(narrow[0].value) or "").split(".")[-1]), loc(f2, c))
     rec = mb.methods["_recover_dual_values"]
     reads = [n for n in ast.walk(rec) if isinstance(n, ast.Subscript) and dotted(n.value) == "self._constraint_index_in_mosek"]
     okr = len(reads) == 1
@@ -875,6 +912,7 @@ def r_objslot(ctx):
 # ---------------------------------------------------------------------------------------------------
 def r_heur(ctx):
     repo = ctx.repo
+    resolve_names(repo)
     for be in common.backends(repo):
         fn = be.methods.get("prepare_heuristic")
         if fn is None:
